@@ -1347,9 +1347,55 @@ pub fn run_index(id: &str, tier: &str, seed: u64, idx: u64, stats: &mut Stats, k
     let knobs = pick_knobs(&mut rng);
     let mut gen = Gen::new(profile_for(id), format!("{}", idx), &mut rng);
     let venv = venv_of(&gen.names, &mut rng);
-    let pre = random_tree(&mut gen, &venv, &mut rng);
+    let mut pre = random_tree(&mut gen, &venv, &mut rng);
     // (state, call) pairs dominate; the rest are short multi-step histories
-    let len = if rng.chance(3, 5) { 1 } else { rng.range(2, 10) };
+    let mut len = if rng.chance(3, 5) { 1 } else { rng.range(2, 10) };
+    // scale runs: a pre-state far beyond the usual sizes (a tree of several dozen entries with
+    // nested directories of different modes, files of equal size above the usual buffer sizes)
+    // and the copy / move calls that have to cope with it
+    if idx % 128 == 69 && matches!(id, "C02" | "C09" | "C06") && !pre.nodes.contains_key("/S") {
+        stats.bump("scale_runs");
+        let modes = [0o40755u32, 0o40700, 0o40750, 0o41777, 0o40711];
+        pre.nodes.insert("/S".into(), Node::dir(*rng.pick(&modes)));
+        let n = *rng.pick(&[22usize, 30, 60, 85]);
+        let mut dirs = vec!["/S".to_string()];
+        for i in 0..n {
+            let par = rng.pick(&dirs[..]).clone();
+            if i % 3 == 0 && tree::depth(&par) < 5 {
+                let p = tree::join(&par, &format!("d{}", i));
+                pre.nodes.insert(p.clone(), Node::dir(*rng.pick(&modes)));
+                dirs.push(p);
+            } else {
+                let p = tree::join(&par, &format!("f{}", i));
+                let mut nd = Node::dir(0);
+                nd.kind = Kind::File;
+                nd.mode = *rng.pick(&[0o100644u32, 0o100600, 0o100755]);
+                nd.data = Some(Bytes(format!("<s{}.{}>", idx, i).into_bytes()));
+                pre.nodes.insert(p, nd);
+            }
+        }
+        let size = *rng.pick(&[65536usize, 65537, 70000, 100000, 200001]);
+        for (k, name) in ["big1", "big2"].iter().enumerate() {
+            let mut d = format!("<{}.{}>", idx, name).into_bytes();
+            d.resize(size, b'a' + k as u8);
+            let mut nd = Node::dir(0);
+            nd.kind = Kind::File;
+            nd.mode = 0o100644;
+            nd.data = Some(Bytes(d));
+            pre.nodes.insert(format!("/S/{}", name), nd);
+        }
+        let forced = match rng.below(6) {
+            0 => Op::Copy { s: "/S/big1".into(), d: "/S/big2".into() },
+            1 => Op::Copy { s: "/S".into(), d: "/S2".into() },
+            2 => Op::CopyB { s: "/S".into(), d: "/S3".into(), calls: vec![] },
+            3 => Op::MoveP { s: "/S".into(), d: "/T".into() },
+            4 => Op::Copy { s: "/S/big2".into(), d: "/copy-of-big".into() },
+            _ => Op::CopyB { s: "/S".into(), d: "/S4".into(), calls: vec![CopyCall::ChmodFiles(0o600)] },
+        };
+        gen.queue.push_back(forced);
+        gen.queue.push_back(Op::ReadAll { p: "/S/big2".into() });
+        len += 2;
+    }
     let out = SANDBOX.with(|sb| {
         let o = run_diff(id, sb, &knobs, &venv, &pre, Src::Gen { gen: &mut gen, rng: &mut rng, len }, stats, known);
         sb.cleanup();
